@@ -887,3 +887,72 @@ Lemma rule_cons (thr rel : option R) prev v w rest :
 Proof. reflexivity. Qed.
 Lemma rule_single (thr rel : option R) prev v : @rule ROps thr rel prev [v] = v.
 Proof. reflexivity. Qed.
+
+(* ------------------------------------------------------------------ the loop of OverSamplerIterate.array_via_func_from *)
+Section Iterate.
+  Variables (f : RR -> R) (ps og : RR) (m : mask) (thr rel : option R).
+  Hypothesis Hps : ps_okR ps.
+  Hypothesis Hthr : thr_okR thr.
+  Let LevM (s : nat) (p : nat * nat) : R := Lev f ps og (shape0 m) (shape1 m) s p.
+
+  Definition Hh (s : nat) (TL : nat -> nat -> bool -> bool) : nat -> nat -> bool -> R :=
+    fun y x b => if TL y x b then 0 else LevM s (y, x).
+  Definition TH (s : nat) (A : nat -> nat -> bool -> R) (TL : nat -> nat -> bool -> bool) : nat -> nat -> bool -> bool :=
+    fun y x b => @threshold_pixel ROps thr rel (TL y x b) (A y x b) (Hh s TL y x b).
+  Definition In' (s : nat) (A I : nat -> nat -> bool -> R) (TL : nat -> nat -> bool -> bool) : nat -> nat -> bool -> R :=
+    fun y x b => if TH s A TL y x b && negb (TL y x b) then Hh s TL y x b else I y x b.
+
+  Lemma iterate_loop_step s rest A I TL : (1 <= s)%nat ->
+    @iterate_loop ROps f ps og thr rel (s :: rest) (@imap2d R A m) (@imap2d R I m) (imap2d TL m)
+    = if is_all_true (imap2d (TH s A TL) m) then inl (imap2d (In' s A I TL) m)
+      else @iterate_loop ROps f ps og thr rel rest (imap2d (Hh s TL) m) (imap2d (In' s A I TL) m) (imap2d (TH s A TL) m).
+  Proof.
+    intros Hs. cbn [iterate_loop]. rewrite (array_at_sub_size_imap f ps og TL m s Hs Hps).
+    unfold threshold_mask_from, iterated_array_from. rewrite !map2d_imap2d. reflexivity.
+  Qed.
+
+  Definition inv (steps : list nat) (slast : nat) (Ans : nat * nat -> R)
+             (A I : nat -> nat -> bool -> R) (TL : nat -> nat -> bool -> bool) : Prop :=
+    forall y x b, In (y, x, b) (cells m) ->
+      (b = true -> TL y x b = true) /\
+      (b = false ->
+         (TL y x b = true /\ I y x b = Ans (y, x)) \/
+         (TL y x b = false /\ I y x b = 0 /\
+          @rule ROps thr rel (A y x b) (map (fun s => LevM s (y, x)) (steps ++ [slast])) = Ans (y, x))).
+
+  Lemma loop_spec (slast : nat) (Ans : nat * nat -> R) : (1 <= slast)%nat ->
+    forall steps A I TL, subs_ok steps -> inv steps slast Ans A I TL ->
+    match @iterate_loop ROps f ps og thr rel steps (imap2d A m) (imap2d I m) (imap2d TL m) with
+    | inl it => to_slim m it = map Ans (unmasked m)
+    | inr (it, tl) => to_slim m (map2d Rplus it (@array_at_sub_size ROps f ps og tl slast)) = map Ans (unmasked m)
+    end.
+  Proof.
+    intros Hl. induction steps as [|s rest IH]; intros A I TL Hs Hinv.
+    - cbn [iterate_loop]. rewrite (array_at_sub_size_imap f ps og TL m slast Hl Hps), map2d_imap2d, to_slim_imap2d.
+      apply map_ext_in. intros [y x] Hp. cbn [fst snd]. apply unmasked_cells in Hp. cbn [fst snd] in Hp.
+      destruct (Hinv y x false Hp) as [_ Hu]. destruct (Hu eq_refl) as [[Ht Hi]|[Ht [Hi Hr]]]; rewrite Ht, Hi.
+      + lra.
+      + cbn [app map] in Hr. rewrite rule_single in Hr. fold (LevM slast (y, x)). rewrite Hr. lra.
+    - inversion Hs as [|? ? Hs1 Hs']; subst. rewrite (iterate_loop_step s rest A I TL Hs1).
+      destruct (is_all_true (imap2d (TH s A TL) m)) eqn:Eall.
+      + rewrite to_slim_imap2d. apply map_ext_in. intros [y x] Hp. cbn [fst snd]. apply unmasked_cells in Hp. cbn [fst snd] in Hp.
+        pose proof (is_all_true_imap2d _ _ Eall y x false Hp) as Hth.
+        destruct (Hinv y x false Hp) as [_ Hu]. unfold In'. rewrite Hth.
+        destruct (Hu eq_refl) as [[Ht Hi]|[Ht [Hi Hr]]]; rewrite Ht; cbn [negb andb]; [exact Hi|].
+        unfold TH in Hth. rewrite Ht, (threshold_pixel_agrees thr rel _ _ Hthr) in Hth. unfold Hh in Hth |- *. rewrite Ht in Hth |- *.
+        destruct rest as [|s2 rest]; cbn [app map] in Hr.
+        * rewrite rule_cons, Hth in Hr. exact Hr.
+        * rewrite rule_cons, Hth in Hr. exact Hr.
+      + apply IH; [exact Hs'|]. intros y x b Hc. destruct (Hinv y x b Hc) as [Hm Hu]. split.
+        * intros Hb. unfold TH. rewrite (Hm Hb). apply threshold_pixel_masked.
+        * intros Hb. destruct (Hu Hb) as [[Ht Hi]|[Ht [Hi Hr]]].
+          -- left. unfold In', TH. rewrite Ht. rewrite threshold_pixel_masked. cbn [negb andb]. split; [reflexivity|exact Hi].
+          -- unfold In', TH, Hh. rewrite Ht. rewrite (threshold_pixel_agrees thr rel _ _ Hthr). cbn [negb]. rewrite andb_true_r.
+             assert (Hr' : (if @agrees ROps thr rel (A y x b) (LevM s (y, x)) then LevM s (y, x)
+                            else @rule ROps thr rel (LevM s (y, x)) (map (fun s => LevM s (y, x)) (rest ++ [slast]))) = Ans (y, x)).
+             { rewrite <- Hr. destruct rest as [|s2 rest]; cbn [app map]; rewrite rule_cons; reflexivity. }
+             destruct (@agrees ROps thr rel (A y x b) (LevM s (y, x))).
+             ++ left. split; [reflexivity|exact Hr'].
+             ++ right. split; [reflexivity|]. split; [exact Hi|exact Hr'].
+  Qed.
+End Iterate.
